@@ -29,3 +29,13 @@ Theorem C15_refresh_schedules_is_reload : forall f0 g s, sv_mem s = full_mem f0 
   update (with_lines f0 g) [CName KSchedules] s = {| sv_mem := full_mem (with_lines f0 g); sv_dangling := [] |}.
 Proof. exact update_schedules_is_reload. Qed.
 Print Assumptions C15_refresh_schedules_is_reload.
+
+(* composed (Proofs/EndToEnd.v): after any operations, a refresh to the files encoding d2 and any further requests, a
+   route request of the domain is answered correctly with respect to d2 — nothing of the old timetable *)
+From TrV Require Import Spec Properties.Common Proofs.EndToEnd.
+Theorem C15_refreshed_route_answers_are_correct : forall all d0 ops1 d2 h2 s p acc egr,
+  in_domain d2 s p acc egr -> encodable_b d2 = true ->
+  exists a, served_ops all d0 (ops1 ++ ORefresh (loaded d2) :: map OReq h2) (QRoute p false acc egr) = Some a /\
+            route_response_correct d2 s p acc egr a.
+Proof. exact refreshed_route_answers_are_correct. Qed.
+Print Assumptions C15_refreshed_route_answers_are_correct.
